@@ -1,6 +1,7 @@
 (* C17 - the script theorem: refinement of the transition system to a
-   sequential reference machine that feeds the non-report key presses, one by
-   one, to one prompt after the other. *)
+   sequential reference machine that hands the non-report key presses, one by
+   one, to one prompt after the other (each followed at once by the key presses
+   its handler fed with first=True). *)
 From Coq Require Import ZArith List Bool Lia.
 From PTK Require Import Lib.Py Model.C03_Vt100Parser Model.C17_Typeahead
   Proofs.C17_Core Proofs.C17_Conserve Proofs.C17_Accept.
@@ -17,6 +18,7 @@ Variable waits : E -> list kp -> bool.
 Variable eff : bid -> list kp -> E -> E * option res.
 Variable is_cprh : bid -> bool.
 Variable cpr_lookup : E -> option bid.
+Variable feeds : bid -> list kp -> E -> list kp.
 Variable restart : E -> E.
 Variable pfeed : str -> PS -> PS * list kp.
 Variable pflush : PS -> PS * list kp.
@@ -24,36 +26,41 @@ Variable res_eof : res.
 
 Notation core := (core E bid res).
 Notation sys := (sys E bid res PS).
-Notation call := (call eff is_cprh).
+Notation call := (call eff is_cprh feeds).
 Notation scan := (@scan E bid res lookup_scan).
-Notation loop := (loop lookup lookup_scan waits eff is_cprh).
-Notation send := (send lookup lookup_scan waits eff is_cprh).
-Notation handle_cpr := (handle_cpr eff is_cprh cpr_lookup).
-Notation deliver := (deliver lookup lookup_scan waits eff is_cprh cpr_lookup).
-Notation process_q := (process_q lookup lookup_scan waits eff is_cprh cpr_lookup).
-Notation pk := (@pk E bid res PS lookup lookup_scan waits eff is_cprh cpr_lookup).
-Notation feed_keys := (@feed_keys E bid res PS lookup lookup_scan waits eff is_cprh cpr_lookup).
-Notation do_read := (@do_read E bid res PS lookup lookup_scan waits eff is_cprh cpr_lookup pfeed res_eof).
-Notation step := (@step E bid res PS lookup lookup_scan waits eff is_cprh cpr_lookup restart pfeed pflush res_eof).
-Notation run := (@run E bid res PS lookup lookup_scan waits eff is_cprh cpr_lookup restart pfeed pflush res_eof).
+Notation loop := (loop lookup lookup_scan waits eff is_cprh feeds).
+Notation send := (send lookup lookup_scan waits eff is_cprh feeds).
+Notation handle_cpr := (handle_cpr eff is_cprh cpr_lookup feeds).
+Notation deliver := (deliver lookup lookup_scan waits eff is_cprh cpr_lookup feeds).
+Notation drain := (drain lookup lookup_scan waits eff is_cprh cpr_lookup feeds).
+Notation deliver_d := (deliver_d lookup lookup_scan waits eff is_cprh cpr_lookup feeds).
+Notation process_q := (process_q lookup lookup_scan waits eff is_cprh cpr_lookup feeds).
+Notation pk := (@pk E bid res PS lookup lookup_scan waits eff is_cprh cpr_lookup feeds).
+Notation feed_keys := (@feed_keys E bid res PS lookup lookup_scan waits eff is_cprh cpr_lookup feeds).
+Notation do_read := (@do_read E bid res PS lookup lookup_scan waits eff is_cprh cpr_lookup feeds pfeed res_eof).
+Notation step := (@step E bid res PS lookup lookup_scan waits eff is_cprh cpr_lookup feeds restart pfeed pflush res_eof).
+Notation run := (@run E bid res PS lookup lookup_scan waits eff is_cprh cpr_lookup feeds restart pfeed pflush res_eof).
 Notation Jc := (@Jc E bid res).
 Notation Js := (@Js E bid res PS).
 
 (* the key buffer between two activations: empty, or still a prefix of a longer binding *)
 Definition KB (c : core) : Prop := kbuf c = [] \/ waits (est c) (kbuf c) = true.
 
-(* no binding that ends the prompt fires from the retry scan with keys left in
-   the buffer (so nothing is ever pushed back to the queue) *)
+(* when a key press (with what its handler feeds) ends the prompt, nothing is
+   left to go back to the queue: no binding that ends the prompt fires from the
+   retry scan with keys left in the buffer, or before everything it was fed
+   together with has been delivered *)
 Definition no_pushback : Prop :=
-  forall (c : core) it, cph c = CRun res -> pb c = [] -> KB c -> pb (send it c) = [].
+  forall (c : core) it, cph c = CRun res -> pb c = [] -> KB c ->
+    cph (deliver_d it c) <> CRun res -> pb (deliver_d it c) = [].
 
-Hypothesis Hsil : cpr_silent eff cpr_lookup.
+Hypothesis Hsil : cpr_silent eff cpr_lookup feeds.
 Hypothesis Hnp : no_pushback.
 
 (* ---------------------------------------------------------------------- *)
-(* the three fields the dispatch depends on *)
+(* the fields the dispatch depends on *)
 
-Definition core_eq (a b : core) : Prop := est a = est b /\ kbuf a = kbuf b /\ cph a = cph b.
+Definition core_eq (a b : core) : Prop := est a = est b /\ kbuf a = kbuf b /\ cph a = cph b /\ pb a = pb b.
 
 Lemma core_eq_refl a : core_eq a a.
 Proof. unfold core_eq; auto. Qed.
@@ -64,7 +71,7 @@ Proof. unfold core_eq; intuition congruence. Qed.
 
 Lemma call_congr x ks a b : core_eq a b -> core_eq (call x ks a) (call x ks b).
 Proof.
-  intros (H1 & H2 & H3). unfold core_eq, C17_Typeahead.call; cbn [est kbuf cph]. rewrite H1, H2, H3. auto.
+  intros (H1 & H2 & H3 & H4). unfold core_eq, C17_Typeahead.call; cbn [est kbuf cph pb]. rewrite H1, H2, H3, H4. auto.
 Qed.
 
 Lemma scan_congr n a b : est a = est b -> kbuf a = kbuf b -> scan n a = scan n b.
@@ -74,28 +81,31 @@ Proof.
 Qed.
 
 Lemma set_kbuf_congr l a b : core_eq a b -> core_eq (set_kbuf l a) (set_kbuf l b).
-Proof. intros (H1 & H2 & H3). unfold core_eq; cbn [est kbuf cph set_kbuf]. auto. Qed.
-
+Proof. intros (H1 & H2 & H3 & H4). unfold core_eq; cbn [est kbuf cph pb set_kbuf]. auto. Qed.
+Lemma clear_pb_congr a b : core_eq a b -> core_eq (clear_pb a) (clear_pb b).
+Proof. intros (H1 & H2 & H3 & H4). unfold core_eq; cbn [est kbuf cph pb clear_pb]. auto. Qed.
+Lemma set_pb_congr l a b : core_eq a b -> core_eq (set_pb l a) (set_pb l b).
+Proof. intros (H1 & H2 & H3 & H4). unfold core_eq; cbn [est kbuf cph pb set_pb]. auto. Qed.
 Lemma push_back_congr a b : core_eq a b -> core_eq (push_back a) (push_back b).
-Proof. intros (H1 & H2 & H3). unfold core_eq; cbn [est kbuf cph push_back]. auto. Qed.
+Proof. intros (H1 & H2 & H3 & H4). unfold core_eq; cbn [est kbuf cph pb push_back]. rewrite H2, H4. auto. Qed.
 
 Lemma retry_congr (k : core -> core) a b :
   (forall x y, core_eq x y -> core_eq (k x) (k y)) -> core_eq a b -> core_eq (retry k a) (retry k b).
 Proof.
-  intros HK H. pose proof H as (H1 & H2 & H3). unfold retry, late. rewrite <- H3.
+  intros HK H. pose proof H as (H1 & H2 & H3 & H4). unfold retry, late. rewrite <- H3.
   destruct (cph a); [apply HK; exact H|apply push_back_congr; exact H|apply push_back_congr; exact H].
 Qed.
 
 Lemma loop_congr fuel : forall fl a b, core_eq a b -> core_eq (loop fuel fl a) (loop fuel fl b).
 Proof.
-  induction fuel as [|f IH]; intros fl a b H; pose proof H as (H1 & H2 & H3); cbn [C17_Typeahead.loop].
-  - rewrite <- H2. destruct (kbuf a); [exact H|]. unfold core_eq; cbn [est kbuf cph set_oof]. auto.
+  induction fuel as [|f IH]; intros fl a b H; pose proof H as (H1 & H2 & H3 & H4); cbn [C17_Typeahead.loop].
+  - rewrite <- H2. destruct (kbuf a); [exact H|]. unfold core_eq; cbn [est kbuf cph pb set_oof]. auto.
   - rewrite <- H2, <- H3, <- H1.
     pose proof (fun n => scan_congr n a b H1 H2) as SC.
     destruct (kbuf a) as [|k0 tl0] eqn:KA; [exact H|].
     rewrite <- SC.
     assert (DR : core_eq (set_kbuf tl0 (add_ev (@EDrop bid (late a) k0) a)) (set_kbuf tl0 (add_ev (@EDrop bid (late b) k0) b))).
-    { unfold core_eq; cbn [est kbuf cph set_kbuf add_ev]. auto. }
+    { unfold core_eq; cbn [est kbuf cph pb set_kbuf add_ev]. auto. }
     destruct (cph a) eqn:PA.
     + destruct (negb fl && waits (est a) (k0 :: tl0)); [exact H|].
       destruct (lookup (est a) (k0 :: tl0)).
@@ -114,16 +124,81 @@ Qed.
 
 Lemma send_congr it a b : core_eq a b -> core_eq (send it a) (send it b).
 Proof.
-  intros H. pose proof H as (H1 & H2 & H3). destruct it as [k|]; unfold C17_Typeahead.send; rewrite <- H2.
-  - apply loop_congr. unfold core_eq; cbn [est kbuf cph set_kbuf]. rewrite H2. auto.
+  intros H. pose proof H as (H1 & H2 & H3 & H4). destruct it as [k|]; unfold C17_Typeahead.send; rewrite <- H2.
+  - apply loop_congr. unfold core_eq; cbn [est kbuf cph pb set_kbuf]. rewrite H2. auto.
   - apply loop_congr. exact H.
+Qed.
+
+Lemma deliver_congr it a b : core_eq a b -> core_eq (deliver it a) (deliver it b).
+Proof.
+  intros H. destruct it as [k|]; cbn [C17_Typeahead.deliver]; [|apply send_congr; exact H].
+  destruct (is_cpr k); [|apply send_congr; exact H].
+  unfold C17_Typeahead.handle_cpr. destruct H as (H1 & H2 & H3 & H4). rewrite <- H1.
+  destruct (cpr_lookup (est a)); [apply call_congr|]; unfold core_eq; auto.
+Qed.
+
+Lemma drain_congr l : forall a b, core_eq a b -> core_eq (drain l a) (drain l b).
+Proof.
+  induction l as [|k l IH]; intros a b H; cbn [C17_Typeahead.drain]; [exact H|].
+  pose proof (deliver_congr (IKey k) a b H) as D. pose proof D as (D1 & D2 & D3 & D4).
+  rewrite <- D3, <- D4.
+  destruct (cph (deliver (IKey k) a)).
+  - destruct (pb (deliver (IKey k) a)); [apply IH; exact D|].
+    apply clear_pb_congr in D. destruct D as (X1 & X2 & X3 & X4). unfold core_eq; cbn [est kbuf cph pb set_deep] in *. auto.
+  - apply set_pb_congr. exact D.
+  - apply set_pb_congr. exact D.
+Qed.
+
+Lemma deliver_d_congr it a b : core_eq a b -> core_eq (deliver_d it a) (deliver_d it b).
+Proof.
+  intros H. unfold C17_Typeahead.deliver_d.
+  pose proof (deliver_congr it a b H) as D. pose proof D as (D1 & D2 & D3 & D4). rewrite <- D3, <- D4.
+  destruct (cph (deliver it a)); [|exact D|exact D].
+  apply drain_congr. apply clear_pb_congr. exact D.
 Qed.
 
 (* a report leaves the dispatch state as it was *)
 Lemma handle_cpr_core_eq k (c : core) : core_eq (handle_cpr k c) c.
 Proof.
-  destruct (@handle_cpr_eq E bid res eff is_cprh cpr_lookup Hsil k c) as (E1 & E2 & E3 & _).
+  destruct (@handle_cpr_eq E bid res eff is_cprh cpr_lookup feeds Hsil k c) as (E1 & E2 & E3 & E4 & _).
   unfold core_eq. auto.
+Qed.
+
+(* the ghost list of popped key presses is only written by process_keys *)
+Lemma loop_rpops fuel : forall fl (c : core), rpops (loop fuel fl c) = rpops c.
+Proof.
+  induction fuel as [|f IH]; intros fl c; cbn [C17_Typeahead.loop].
+  - destruct (kbuf c); reflexivity.
+  - destruct (kbuf c) as [|k0 tl0]; [reflexivity|].
+    assert (R : forall c1, rpops c1 = rpops c -> rpops (retry (loop f false) c1) = rpops c).
+    { intros c1 H. unfold retry. destruct (late c1); [exact H|rewrite IH; exact H]. }
+    destruct (cph c); [| |reflexivity].
+    + destruct (negb fl && waits (est c) (k0 :: tl0)); [reflexivity|].
+      destruct (lookup (est c) (k0 :: tl0)); [reflexivity|].
+      destruct (scan (length (k0 :: tl0)) c) as [[x i]|]; apply R; reflexivity.
+    + destruct (negb fl && waits (est c) (k0 :: tl0)); [reflexivity|].
+      destruct (lookup (est c) (k0 :: tl0)); [reflexivity|].
+      destruct (scan (length (k0 :: tl0)) c) as [[x i]|]; apply R; reflexivity.
+Qed.
+
+Lemma deliver_rpops it (c : core) : rpops (deliver it c) = rpops c.
+Proof.
+  destruct it as [k|]; cbn [C17_Typeahead.deliver]; [|unfold C17_Typeahead.send; rewrite loop_rpops; reflexivity].
+  destruct (is_cpr k); [|unfold C17_Typeahead.send; rewrite loop_rpops; reflexivity].
+  unfold C17_Typeahead.handle_cpr. destruct (cpr_lookup (est c)); reflexivity.
+Qed.
+
+Lemma drain_rpops l : forall c : core, rpops (drain l c) = rpops c.
+Proof.
+  induction l as [|k l IH]; intros c; cbn [C17_Typeahead.drain]; [reflexivity|].
+  destruct (cph (deliver (IKey k) c)); [|cbn [rpops set_pb]; apply deliver_rpops|cbn [rpops set_pb]; apply deliver_rpops].
+  destruct (pb (deliver (IKey k) c)); [rewrite IH; apply deliver_rpops|cbn [rpops set_deep clear_pb]; apply deliver_rpops].
+Qed.
+
+Lemma deliver_d_rpops it (c : core) : rpops (deliver_d it c) = rpops c.
+Proof.
+  unfold C17_Typeahead.deliver_d. destruct (cph (deliver it c)); [|apply deliver_rpops|apply deliver_rpops].
+  rewrite drain_rpops. cbn [rpops clear_pb]. apply deliver_rpops.
 Qed.
 
 (* the key buffer is empty or waiting whenever the coroutine yields with the result unset *)
@@ -164,6 +239,29 @@ Proof.
   - apply loop_KB; [lia|exact PR].
 Qed.
 
+Lemma deliver_KB it (c : core) : KB c -> cph (deliver it c) = CRun res -> KB (deliver it c).
+Proof.
+  intros K. destruct it as [k|]; cbn [C17_Typeahead.deliver]; [|apply send_KB].
+  destruct (is_cpr k); [|apply send_KB]. intros _.
+  destruct (handle_cpr_core_eq k c) as (E1 & E2 & _). unfold KB. rewrite E1, E2. exact K.
+Qed.
+
+Lemma drain_KB l : forall c : core, KB c -> cph (drain l c) = CRun res -> KB (drain l c).
+Proof.
+  induction l as [|k l IH]; intros c K H; cbn [C17_Typeahead.drain] in *; [exact K|].
+  destruct (cph (deliver (IKey k) c)) eqn:PC.
+  - pose proof (deliver_KB (IKey k) c K PC) as K'.
+    destruct (pb (deliver (IKey k) c)); [apply IH; assumption|exact K'].
+  - cbn [cph set_pb] in H. congruence.
+  - cbn [cph set_pb] in H. congruence.
+Qed.
+
+Lemma deliver_d_KB it (c : core) : KB c -> cph (deliver_d it c) = CRun res -> KB (deliver_d it c).
+Proof.
+  intros K. unfold C17_Typeahead.deliver_d. destruct (cph (deliver it c)) eqn:PC; [|congruence|congruence].
+  intros H. apply drain_KB; [|exact H]. exact (deliver_KB it c K PC).
+Qed.
+
 (* ---------------------------------------------------------------------- *)
 (* the reference machine *)
 
@@ -173,7 +271,7 @@ Fixpoint ref (ks : list kp) (st : list res * core) : list res * core :=
   match ks with
   | [] => st
   | k :: ks' =>
-      let c' := send (IKey k) (snd st) in
+      let c' := deliver_d (IKey k) (snd st) in
       match cph c' with
       | CDone r => ref ks' (fst st ++ [r], fresh (restart (est c')))
       | _ => ref ks' (fst st, c')
@@ -191,17 +289,17 @@ Proof. intros [A1 A2]. split; [congruence|apply core_eq_sym; assumption]. Qed.
 Lemma ref_congr ks : forall a b, st_eq a b -> st_eq (ref ks a) (ref ks b).
 Proof.
   induction ks as [|k ks IH]; intros a b H; [exact H|]. cbn [ref].
-  destruct H as [H1 H2]. pose proof (send_congr (IKey k) _ _ H2) as (S1 & S2 & S3).
-  rewrite <- S3. destruct (cph (send (IKey k) (snd a))) eqn:PA.
-  - apply IH. split; [exact H1|]. cbn [snd]. unfold core_eq. repeat split; congruence.
+  destruct H as [H1 H2]. pose proof (deliver_d_congr (IKey k) _ _ H2) as S0. pose proof S0 as (S1 & S2 & S3 & S4).
+  rewrite <- S3. destruct (cph (deliver_d (IKey k) (snd a))) eqn:PA.
+  - apply IH. split; [exact H1|exact S0].
   - apply IH. split; cbn [fst snd]; [rewrite H1; reflexivity|]. rewrite S1. apply core_eq_refl.
-  - apply IH. split; [exact H1|]. cbn [snd]. unfold core_eq. repeat split; congruence.
+  - apply IH. split; [exact H1|exact S0].
 Qed.
 
 Lemma ref_app a : forall b st, ref (a ++ b) st = ref b (ref a st).
 Proof.
   induction a as [|k a IH]; intros b st; [reflexivity|]. cbn [app ref].
-  destruct (cph (send (IKey k) (snd st))); apply IH.
+  destruct (cph (deliver_d (IKey k) (snd st))); apply IH.
 Qed.
 
 (* the reference view of a key processor with [rs] results already returned *)
@@ -213,72 +311,103 @@ Definition absc (rs : list res) (c : core) : list res * core :=
 
 Lemma absc_congr rs a b : core_eq a b -> st_eq (absc rs a) (absc rs b).
 Proof.
-  intros (H1 & H2 & H3). unfold absc. rewrite <- H3. destruct (cph a) eqn:PA.
-  - split; [reflexivity|]. cbn [snd]. unfold core_eq. repeat split; congruence.
+  intros H. pose proof H as (H1 & H2 & H3 & H4). unfold absc. rewrite <- H3. destruct (cph a) eqn:PA.
+  - split; [reflexivity|exact H].
   - rewrite H1. apply st_eq_refl.
-  - split; [reflexivity|]. cbn [snd]. unfold core_eq. repeat split; congruence.
+  - split; [reflexivity|exact H].
 Qed.
 
 Definition KBr (c : core) : Prop := cph c = CRun res -> KB c.
 
 Lemma KBr_congr a b : core_eq a b -> KBr a -> KBr b.
-Proof. intros (H1 & H2 & H3) K P. unfold KB. rewrite <- H1, <- H2. apply K. congruence. Qed.
+Proof. intros (H1 & H2 & H3 & H4) K P. unfold KB. rewrite <- H1, <- H2. apply K. congruence. Qed.
 
-Lemma acc_clear (c : core) : pb c = [] -> acc (clear_pb c) = acc c.
-Proof. intros P. unfold acc; cbn [kbuf pb clear_pb]. rewrite P. reflexivity. Qed.
-
+(* one process_keys(): the popped non-report key presses, handed to the
+   reference machine, give the same state; what is popped is gone from the queue *)
 Lemma pq_R q : forall (c : core) rs st,
   pb c = [] -> KBr c -> Forall nf q -> st_eq st (absc rs c) ->
-  exists D, nc (acc (fst (process_q q c))) = nc (acc c) ++ D /\
+  exists D, nc (rpops (fst (process_q q c))) = nc (rpops c) ++ D /\
             st_eq (ref D st) (absc rs (fst (process_q q c))) /\
             KBr (fst (process_q q c)) /\ pb (fst (process_q q c)) = [] /\
-            (cph (fst (process_q q c)) = CRun res -> snd (process_q q c) = []).
+            nc (rpops (fst (process_q q c))) ++ nc (ikeys (snd (process_q q c))) = nc (rpops c) ++ nc (ikeys q).
 Proof.
   induction q as [|it q IH]; intros c rs st P0 K F S; cbn [C17_Typeahead.process_q] in *.
-  - exists []. rewrite app_nil_r. auto 6.
+  - exists []. rewrite !app_nil_r. auto 6.
   - inversion F as [|? ? F1 F2]; subst.
     destruct (cph c) eqn:PH.
-    + (* result not set: the item is popped *)
+    + (* result not set: the item is popped and delivered, with what its handler feeds *)
       destruct it as [k|]; [|exfalso; apply F1; reflexivity].
-      cbn [fst snd C17_Typeahead.deliver].
+      cbn [fst snd C17_Typeahead.pop].
+      set (c0 := add_pop k c).
+      assert (C0 : core_eq c0 c) by (unfold core_eq, c0; cbn [est kbuf cph pb add_pop]; auto).
+      assert (PH0 : cph c0 = CRun res) by exact PH.
+      assert (K0 : KB c0) by (apply (KBr_congr c c0 (core_eq_sym _ _ C0) K); exact PH0).
+      set (c' := deliver_d (IKey k) c0).
+      assert (PB : pb c' = []).
+      { destruct (cph c') eqn:PC; [apply (@deliver_d_pb_run E bid res lookup lookup_scan waits eff is_cprh cpr_lookup feeds); exact PC| |];
+          (apply Hnp; [exact PH0|exact P0|exact K0|fold c'; congruence]). }
+      assert (RP : rpops c' = rpops c ++ [k]) by (unfold c'; rewrite deliver_d_rpops; reflexivity).
+      assert (K' : KBr (clear_pb c')).
+      { intros X. cbn [cph clear_pb] in X. pose proof (deliver_d_KB (IKey k) c0 K0 X) as Y. exact Y. }
+      assert (CC : core_eq (clear_pb c') c') by (unfold core_eq; cbn [est kbuf cph pb clear_pb]; auto).
+      rewrite PB. cbn [map app].
       destruct (is_cpr k) eqn:CK.
-      * pose proof (handle_cpr_core_eq k c) as CE.
-        destruct (@handle_cpr_eq E bid res eff is_cprh cpr_lookup Hsil k c) as (_ & _ & _ & E4 & _).
-        assert (CE' : core_eq (clear_pb (handle_cpr k c)) c).
-        { destruct CE as (X1 & X2 & X3). unfold core_eq; cbn [est kbuf cph clear_pb]. auto. }
-        destruct (IH (clear_pb (handle_cpr k c)) rs st eq_refl (KBr_congr _ _ (core_eq_sym _ _ CE') K) F2) as (D & A1 & A2 & A3 & A4 & A5).
-        { eapply st_eq_trans; [exact S|]. apply absc_congr. apply core_eq_sym. exact CE'. }
-        exists D. rewrite E4, P0. cbn [map app].
-        split; [|auto]. rewrite A1, acc_clear; [|rewrite E4; exact P0].
-        rewrite (@handle_cpr_acc E bid res eff is_cprh cpr_lookup k c CK). reflexivity.
-      * assert (PB : pb (send (IKey k) c) = []) by (apply Hnp; [exact PH|exact P0|exact (K PH)]).
-        assert (S2 : core_eq (snd st) c) by (destruct S as [_ S2]; unfold absc in S2; rewrite PH in S2; exact S2).
-        pose proof (send_congr (IKey k) _ _ S2) as CE.
-        assert (CE' : core_eq (send (IKey k) (snd st)) (clear_pb (send (IKey k) c))).
-        { destruct CE as (X1 & X2 & X3). unfold core_eq; cbn [est kbuf cph clear_pb]. auto. }
-        assert (K' : KBr (clear_pb (send (IKey k) c))).
-        { intros X. cbn [cph clear_pb] in X. pose proof (send_KB (IKey k) c X) as Y. unfold KB in *. cbn [est kbuf clear_pb]. exact Y. }
-        destruct (IH (clear_pb (send (IKey k) c)) rs (absc (fst st) (send (IKey k) (snd st))) eq_refl K' F2) as (D & A1 & A2 & A3 & A4 & A5).
+      * (* a report: delivered to its binding, nothing changes for the reference machine *)
+        assert (CE : core_eq c' c).
+        { unfold c', C17_Typeahead.deliver_d. cbn [C17_Typeahead.deliver]. rewrite CK.
+          pose proof (handle_cpr_core_eq k c0) as HE. pose proof HE as (X1 & X2 & X3 & X4).
+          rewrite X3, PH0, X4. change (pb c0) with (pb c). rewrite P0. cbn [C17_Typeahead.drain].
+          eapply core_eq_trans; [|exact C0]. eapply core_eq_trans; [|exact HE].
+          unfold core_eq; cbn [est kbuf cph pb clear_pb]. rewrite X4. change (pb c0) with (pb c). rewrite P0. auto. }
+        destruct (IH (clear_pb c') rs st eq_refl K' F2) as (D & A1 & A2 & A3 & A4 & A5).
+        { eapply st_eq_trans; [exact S|]. apply absc_congr. apply core_eq_sym. eapply core_eq_trans; [exact CC|exact CE]. }
+        exists D. cbn [rpops clear_pb] in A1, A5. rewrite RP, nc_app, (nc_cpr k CK), app_nil_r in A1, A5.
+        split; [exact A1|]. split; [exact A2|]. split; [exact A3|]. split; [exact A4|].
+        rewrite A5. cbn [ikeys]. change (k :: ikeys q) with ([k] ++ ikeys q). rewrite nc_app, (nc_cpr k CK). reflexivity.
+      * assert (S2 : core_eq (snd st) c0).
+        { destruct S as [_ S2]. unfold absc in S2. rewrite PH in S2. eapply core_eq_trans; [exact S2|apply core_eq_sym; exact C0]. }
+        pose proof (deliver_d_congr (IKey k) _ _ S2) as CE. fold c' in CE.
+        destruct (IH (clear_pb c') rs (absc (fst st) (deliver_d (IKey k) (snd st))) eq_refl K' F2) as (D & A1 & A2 & A3 & A4 & A5).
         { destruct S as [S1 _]. unfold absc in S1. rewrite PH in S1. cbn [fst] in S1. rewrite S1.
-          apply absc_congr. exact CE'. }
-        exists (k :: D). rewrite PB. cbn [map app]. split; [|split; [|auto]].
-        -- rewrite A1, acc_clear; [|exact PB]. rewrite (@send_acc_key E bid res lookup lookup_scan waits eff is_cprh k c P0), nc_app, (nc_single k CK), <- app_assoc. reflexivity.
+          apply absc_congr. eapply core_eq_trans; [exact CE|apply core_eq_sym; exact CC]. }
+        exists (k :: D). cbn [rpops clear_pb] in A1, A5. rewrite RP, nc_app, (nc_single k CK) in A1, A5.
+        split; [rewrite A1, <- app_assoc; reflexivity|]. split; [|split; [exact A3|split; [exact A4|]]].
         -- cbn [ref]. unfold absc in A2 at 1.
-           destruct (cph (send (IKey k) (snd st))); exact A2.
+           destruct (cph (deliver_d (IKey k) (snd st))); exact A2.
+        -- rewrite A5. cbn [ikeys]. change (k :: ikeys q) with ([k] ++ ikeys q). rewrite nc_app, (nc_single k CK), <- app_assoc. reflexivity.
     + (* result set: only reports are taken out *)
-      assert (NR : not_run c) by (unfold not_run; congruence).
       destruct (item_is_cpr it) eqn:CI.
-      * destruct it as [k|]; [|discriminate]. cbn [item_is_cpr] in CI. cbn [C17_Typeahead.deliver]. rewrite CI.
-        pose proof (handle_cpr_core_eq k c) as CE.
-        destruct (@handle_cpr_eq E bid res eff is_cprh cpr_lookup Hsil k c) as (_ & _ & _ & E4 & _).
-        destruct (IH (handle_cpr k c) rs st (eq_trans E4 P0) (KBr_congr _ _ (core_eq_sym _ _ CE) K) F2) as (D & A1 & A2 & A3 & A4 & A5).
+      * destruct it as [k|]; [|discriminate]. cbn [item_is_cpr] in CI.
+        cbn [C17_Typeahead.deliver C17_Typeahead.pop fst snd]. rewrite CI.
+        pose proof (handle_cpr_core_eq k (add_pop k c)) as HE. pose proof HE as (X1 & X2 & X3 & X4).
+        cbn [pb add_pop] in X4. rewrite X4, P0. cbn [map app].
+        assert (CE : core_eq (clear_pb (handle_cpr k (add_pop k c))) c).
+        { cbn [est kbuf cph add_pop] in *. unfold core_eq; cbn [est kbuf cph pb clear_pb]. auto. }
+        destruct (IH (clear_pb (handle_cpr k (add_pop k c))) rs st eq_refl (KBr_congr _ _ (core_eq_sym _ _ CE) K) F2) as (D & A1 & A2 & A3 & A4 & A5).
         { eapply st_eq_trans; [exact S|]. apply absc_congr. apply core_eq_sym. exact CE. }
-        exists D. split; [|auto]. rewrite A1, (@handle_cpr_acc E bid res eff is_cprh cpr_lookup k c CI). reflexivity.
+        assert (RP : rpops (clear_pb (handle_cpr k (add_pop k c))) = rpops c ++ [k]).
+        { cbn [rpops clear_pb]. unfold C17_Typeahead.handle_cpr. destruct (cpr_lookup (est (add_pop k c))); reflexivity. }
+        exists D. rewrite RP, nc_app, (nc_cpr k CI), app_nil_r in A1, A5.
+        split; [exact A1|]. split; [exact A2|]. split; [exact A3|]. split; [exact A4|].
+        rewrite A5. cbn [ikeys]. change (k :: ikeys q) with ([k] ++ ikeys q). rewrite nc_app, (nc_cpr k CI). reflexivity.
       * cbn [fst snd] in *. destruct (IH c rs st P0 K F2 S) as (D & A1 & A2 & A3 & A4 & A5).
         exists D. split; [exact A1|]. split; [exact A2|]. split; [exact A3|]. split; [exact A4|].
-        intros X. exfalso.
-        destruct (@process_q_done E bid res lookup lookup_scan waits eff is_cprh cpr_lookup q c NR) as (_ & _ & NR'). exact (NR' X).
-    + exists []. rewrite app_nil_r. split; [reflexivity|]. split; [exact S|]. split; [exact K|]. split; [exact P0|]. intros X. cbn [fst] in X. congruence.
+        destruct it as [k|]; cbn [ikeys item_is_cpr] in *; [|exact A5].
+        change (k :: ikeys (snd (process_q q c))) with ([k] ++ ikeys (snd (process_q q c))).
+        change (k :: ikeys q) with ([k] ++ ikeys q). rewrite !nc_app.
+        rewrite (nc_single k CI), app_assoc.
+        assert (X : nc (rpops (fst (process_q q c))) = nc (rpops c)).
+        { assert (NR : not_run c) by (unfold not_run; congruence).
+          clear - NR Hsil. revert c NR. induction q as [|i q IHq]; intros c NR; cbn [C17_Typeahead.process_q]; [reflexivity|].
+          destruct (cph c) eqn:PC; [exfalso; apply NR; exact PC| |reflexivity].
+          destruct (item_is_cpr i) eqn:CI; cbn [fst]; [|apply IHq; exact NR].
+          destruct i as [k|]; [|discriminate]. cbn [item_is_cpr] in CI.
+          rewrite IHq.
+          - cbn [rpops clear_pb C17_Typeahead.pop]. rewrite deliver_rpops. cbn [rpops add_pop]. rewrite nc_app, (nc_cpr k CI), app_nil_r. reflexivity.
+          - unfold not_run; cbn [cph clear_pb]. apply (@deliver_not_run E bid res lookup lookup_scan waits eff is_cprh cpr_lookup feeds). exact NR. }
+        rewrite X in *. rewrite <- (app_assoc (nc (rpops c))). f_equal.
+        apply app_inv_head in A5. rewrite A5. reflexivity.
+    + exists []. rewrite !app_nil_r. split; [reflexivity|]. split; [exact S|]. split; [exact K|]. split; [exact P0|]. reflexivity.
 Qed.
 
 (* ---------------------------------------------------------------------- *)
@@ -293,25 +422,28 @@ Definition abs (s : sys) : list res * core :=
 Section Inv.
 Variable e0 : E.
 Definition R (s : sys) : Prop :=
-  st_eq (ref (nc (acc (co s))) ([], fresh (restart e0))) (abs s).
+  st_eq (ref (nc (rpops (co s))) ([], fresh (restart e0))) (abs s).
 
-Definition Ks (s : sys) : Prop := KBr (co s) /\ pb (co s) = [].
+(* what has been popped ++ type-ahead ++ queue = what has been decoded *)
+Definition Ks (s : sys) : Prop :=
+  KBr (co s) /\ pb (co s) = [] /\ (at_ s <> Detached -> store s = []) /\
+  nc (rpops (co s)) ++ nc (ikeys (store s)) ++ nc (ikeys (queue s)) = nc (decoded s).
 
 Lemma R_pk (s : sys) : at_ s <> Detached -> Ks s -> Forall nf (queue s) -> R s -> R (pk s) /\ Ks (pk s).
 Proof.
-  intros A (K & P0) F H. unfold R in *. unfold C17_Typeahead.pk in *. cbn [co with_co with_queue] in *.
+  intros A (K & P0 & S0 & C0) F H. unfold R in *. unfold C17_Typeahead.pk in *.
   assert (AB : abs s = absc (results s) (co s)) by (unfold abs; destruct (at_ s); [contradiction| |]; reflexivity).
   rewrite AB in H.
-  destruct (pq_R (queue s) (co s) (results s) _ P0 K F H) as (D & A1 & A2 & A3 & A4 & _).
-  split; [|split; assumption].
-  rewrite A1, ref_app. unfold abs, with_co, with_queue; cbn [at_ results co].
-  destruct (at_ s); [contradiction| |]; exact A2.
+  destruct (pq_R (queue s) (co s) (results s) _ P0 K F H) as (D & A1 & A2 & A3 & A4 & A5).
+  split.
+  - cbn [co with_co with_queue]. rewrite A1, ref_app. unfold abs, with_co, with_queue; cbn [at_ results co].
+    destruct (at_ s); [contradiction| |]; exact A2.
+  - unfold Ks, with_co, with_queue; cbn [co at_ store queue decoded]. split; [exact A3|]. split; [exact A4|]. split; [exact S0|].
+    rewrite (S0 A) in *. cbn [ikeys nc filter app] in *. rewrite A5. exact C0.
 Qed.
 
 Lemma R_same (s s' : sys) : co s' = co s -> at_ s' = at_ s -> results s' = results s -> R s -> R s'.
 Proof. intros H1 H2 H3. unfold R, abs. rewrite H1, H2, H3. auto. Qed.
-Lemma Ks_same (s s' : sys) : co s' = co s -> Ks s -> Ks s'.
-Proof. intros H1. unfold Ks. rewrite H1. auto. Qed.
 
 Lemma R_finish r (s : sys) : at_ s <> Detached -> cph (co s) = CDone r -> R s -> R (finish r s).
 Proof.
@@ -319,8 +451,15 @@ Proof.
   destruct (at_ s); [contradiction| |]; unfold absc in H; rewrite PH in H; exact H.
 Qed.
 
+Lemma Ks_finish r (s : sys) : Ks s -> Ks (finish r s).
+Proof.
+  intros (K & P0 & S0 & C0). unfold Ks, C17_Typeahead.finish; cbn [co at_ store queue decoded].
+  split; [exact K|]. split; [exact P0|]. split; [intros X; congruence|].
+  rewrite ikeys_app, nc_app, nc_ikeys_filter. cbn [ikeys nc filter]. rewrite app_nil_r. exact C0.
+Qed.
+
 Lemma R_core_eq (c' : core) (s : sys) :
-  acc c' = acc (co s) -> core_eq (co s) c' -> R s -> R (with_co c' s).
+  rpops c' = rpops (co s) -> core_eq (co s) c' -> R s -> R (with_co c' s).
 Proof.
   intros HA HE H. unfold R in *. unfold with_co at 1. cbn [co]. rewrite HA.
   eapply st_eq_trans; [exact H|]. unfold abs, with_co; cbn [at_ results co].
@@ -342,7 +481,10 @@ Proof.
   intros A (J & _ & _ & F & G & W) K H. unfold C17_Typeahead.do_read in *. cbv zeta in *. rewrite W in *.
   destruct (pipe s).
   - apply R_pk; assumption.
-  - unfold C17_Typeahead.feed_keys in *. apply R_pk; cbn [co queue at_]; [exact A|exact K| |].
+  - unfold C17_Typeahead.feed_keys in *. apply R_pk; cbn [co queue at_]; [exact A| | |].
+    + destruct K as (K1 & K2 & K3 & K4). unfold Ks; cbn [co at_ store queue decoded].
+      split; [exact K1|]. split; [exact K2|]. split; [exact K3|].
+      rewrite ikeys_app, ikeys_map, !nc_app, !app_assoc. rewrite <- K4, !app_assoc. reflexivity.
     + apply Forall_app; split; [exact F|apply nf_map].
     + eapply R_same; [| | |exact H]; reflexivity.
 Qed.
@@ -350,10 +492,11 @@ Qed.
 Lemma R_step (s : sys) l : quiet1 l -> Js s -> Ks s -> R s -> R (step s l) /\ Ks (step s l).
 Proof.
   intros (Q1 & Q2 & Q3) J K H. pose proof J as (Jc0 & D & Q & F & G & W).
+  pose proof K as (K1 & K2 & K3 & K4).
   unfold C17_Typeahead.step in *.
   destruct (cph (co s)) eqn:PH; destruct l; try (split; [exact H|exact K]); try congruence.
   all: try (destruct (wclosed s); [split; [exact H|exact K]|];
-            split; [eapply R_same; [| | |exact H]; reflexivity|eapply Ks_same; [|exact K]; reflexivity]).
+            split; [eapply R_same; [| | |exact H]; reflexivity|exact K]).
   all: try (destruct (at_ s) eqn:A; try (split; [exact H|exact K]);
             try (apply R_do_read; [congruence|exact J|exact K|exact H]);
             try (destruct (wcpr (co s)); [split; [exact H|exact K]|apply R_do_read; [congruence|exact J|exact K|exact H]]);
@@ -361,51 +504,50 @@ Proof.
   - (* LStart, result not set *)
     destruct (at_ s) eqn:A; [|split; [exact H|exact K]|split; [exact H|exact K]].
     destruct (D eq_refl) as [D1 D2]. rewrite D1, D2 in *.
-    destruct K as (K1 & K2).
     apply R_pk; cbn [co queue at_]; [congruence| |exact G|].
-    + split; [|exact K2]. intros _. left. reflexivity.
-    + unfold R, abs in *. cbn [co at_ results]. rewrite A in H. unfold absc; cbn [cph].
-      unfold acc in *. cbn [kbuf pb] in *. rewrite D1, K2 in H. unfold logged in *. cbn [rlog rev] in *.
-      rewrite K2, map_app, concat_app. cbn [map concat ev_keys]. rewrite !app_nil_r in *.
-      eapply st_eq_trans; [exact H|]. split; [reflexivity|]. cbn [snd]. unfold core_eq, fresh, init_core; cbn [est kbuf cph]. auto.
+    + unfold Ks; cbn [co at_ store queue decoded rpops pb]. split; [intros _; left; reflexivity|]. split; [exact K2|].
+      split; [reflexivity|]. cbn [ikeys nc filter app] in *. rewrite app_nil_r in K4. exact K4.
+    + unfold R, abs in *. cbn [co at_ results rpops]. rewrite A in H. unfold absc; cbn [cph].
+      eapply st_eq_trans; [exact H|]. split; [reflexivity|]. cbn [snd]. unfold core_eq, fresh, init_core; cbn [est kbuf cph pb]. auto.
   - (* LStart, result of the previous prompt still recorded *)
     destruct (at_ s) eqn:A; [|split; [exact H|exact K]|split; [exact H|exact K]].
     destruct (D eq_refl) as [D1 D2]. rewrite D1, D2 in *.
-    destruct K as (K1 & K2).
     apply R_pk; cbn [co queue at_]; [congruence| |exact G|].
-    + split; [|exact K2]. intros _. left. reflexivity.
-    + unfold R, abs in *. cbn [co at_ results]. rewrite A in H. unfold absc; cbn [cph].
-      unfold acc in *. cbn [kbuf pb] in *. rewrite D1, K2 in H. unfold logged in *. cbn [rlog rev] in *.
-      rewrite K2, map_app, concat_app. cbn [map concat ev_keys]. rewrite !app_nil_r in *.
-      eapply st_eq_trans; [exact H|]. split; [reflexivity|]. cbn [snd]. unfold core_eq, fresh, init_core; cbn [est kbuf cph]. auto.
+    + unfold Ks; cbn [co at_ store queue decoded rpops pb]. split; [intros _; left; reflexivity|]. split; [exact K2|].
+      split; [reflexivity|]. cbn [ikeys nc filter app] in *. rewrite app_nil_r in K4. exact K4.
+    + unfold R, abs in *. cbn [co at_ results rpops]. rewrite A in H. unfold absc; cbn [cph].
+      eapply st_eq_trans; [exact H|]. split; [reflexivity|]. cbn [snd]. unfold core_eq, fresh, init_core; cbn [est kbuf cph pb]. auto.
   - (* LExit *)
     destruct (at_ s) eqn:A; [split; [exact H|exact K]| |split; [exact H|exact K]].
     destruct (rcpr s && negb (Nat.eqb (wcpr (co s)) 0)).
-    + split; [|exact K]. unfold R, abs in *. cbn [co at_ results]. rewrite A in H. exact H.
-    + split; [apply R_finish; [congruence|exact PH|exact H]|exact K].
+    + split.
+      * unfold R, abs in *. cbn [co at_ results]. rewrite A in H. exact H.
+      * unfold Ks; cbn [co at_ store queue decoded]. split; [exact K1|]. split; [exact K2|]. split; [intros _; apply K3; congruence|exact K4].
+    + split; [apply R_finish; [congruence|exact PH|exact H]|apply Ks_finish; exact K].
   - (* LExitEnd *)
     destruct (at_ s) eqn:A; try (split; [exact H|exact K]). destruct (wcpr (co s)); [|split; [exact H|exact K]].
-    split; [apply R_finish; [congruence|exact PH|exact H]|exact K].
+    split; [apply R_finish; [congruence|exact PH|exact H]|apply Ks_finish; exact K].
   - (* LCprTimeout *)
     destruct (at_ s) eqn:A; try (split; [exact H|exact K]).
-    split; [apply R_finish; [cbn [at_ with_co]; congruence|exact PH|apply R_wcpr; exact H]|exact K].
+    split; [apply R_finish; [cbn [at_ with_co]; congruence|exact PH|apply R_wcpr; exact H]|apply Ks_finish; exact K].
 Qed.
 
-Lemma run_R ls : forall s : sys, quiet ls -> Js s -> Ks s -> R s -> R (run ls s).
+Lemma run_R ls : forall s : sys, quiet ls -> Js s -> Ks s -> R s -> R (run ls s) /\ Ks (run ls s).
 Proof.
-  induction ls as [|l ls IH]; intros s Q J K H; [exact H|]. cbn [C17_Typeahead.run fold_left] in *.
+  induction ls as [|l ls IH]; intros s Q J K H; [split; assumption|]. cbn [C17_Typeahead.run fold_left] in *.
   inversion Q as [|? ? Q1 Q2]; subst.
   destruct (R_step s l Q1 J K H) as (H' & K').
   apply IH; [exact Q2| |exact K'|exact H'].
-  apply (@Js_step E bid res PS lookup lookup_scan waits eff is_cprh cpr_lookup restart pfeed pflush res_eof Hsil);
+  apply (@Js_step E bid res PS lookup lookup_scan waits eff is_cprh cpr_lookup feeds restart pfeed pflush res_eof Hsil);
     [exact (proj1 Q1)|exact J].
 Qed.
 
 End Inv.
+
 (* ---------------------------------------------------------------------- *)
 (* scripts *)
 
-Definition runline (c : core) (l : list kp) : core := fold_left (fun c k => send (IKey k) c) l c.
+Definition runline (c : core) (l : list kp) : core := fold_left (fun c k => deliver_d (IKey k) c) l c.
 
 Inductive lines_ok : E -> list (list kp) -> list res -> Prop :=
 | LO_nil e : lines_ok e [] []
@@ -422,7 +564,7 @@ Proof.
   induction l as [|k l IH]; intros c rs0 PH H.
   - cbn [ref runline fold_left]. unfold absc. rewrite PH. reflexivity.
   - cbn [ref runline fold_left snd fst].
-    destruct (cph (send (IKey k) c)) eqn:P1.
+    destruct (cph (deliver_d (IKey k) c)) eqn:P1.
     + apply IH; [exact P1|]. intros p q EQ NE. apply (H (k :: p) q); [cbn [app]; rewrite EQ; reflexivity|exact NE].
     + destruct l as [|k2 l2].
       * cbn [ref fold_left]. unfold absc. rewrite P1. reflexivity.
@@ -475,13 +617,11 @@ Lemma script ls e p r lines rs :
   results s = firstn (length (results s)) rs.
 Proof.
   intros Q s LO (tail & T).
-  assert (RR : R e s).
-  { apply run_R; [exact Q|apply Js_init| |].
-    - split; [intros _; left; reflexivity|reflexivity].
-    - unfold R, abs, init, acc, logged; cbn. apply st_eq_refl. }
-  destruct (@inv_run E bid res PS lookup lookup_scan waits eff is_cprh cpr_lookup restart pfeed pflush res_eof ls
-              (@init E bid res PS e p r) (inv_init E bid res PS e p r)) as (CONS & _).
-  fold s in CONS. rewrite <- CONS, <- app_assoc in T.
+  destruct (run_R e ls (@init E bid res PS e p r) Q (Js_init E bid res PS e p r)) as (RR & KK).
+  { unfold Ks, init, init_core; cbn. split; [intros _; left; reflexivity|]. split; [reflexivity|]. split; [intros X; congruence|reflexivity]. }
+  { unfold R, abs, init; cbn. apply st_eq_refl. }
+  fold s in RR, KK. destruct KK as (_ & _ & _ & CONS).
+  rewrite <- CONS, <- app_assoc in T.
   destruct (ref_lines (restart e) lines rs LO _ _ [] T) as (n & Hn).
   destruct RR as [R1 _]. rewrite R1 in Hn. cbn [app] in Hn.
   destruct (abs_results s) as (x & X). rewrite X in Hn.
@@ -489,5 +629,5 @@ Proof.
 Qed.
 
 End P.
-Arguments no_pushback {E bid res} lookup lookup_scan waits eff is_cprh.
+Arguments no_pushback {E bid res} lookup lookup_scan waits eff is_cprh cpr_lookup feeds.
 Arguments KB {E bid res} waits c.
